@@ -367,7 +367,7 @@ func c05aggGen(c *h.Ctx, yield func(*h.Case)) {
 	// with the parent's message of the same type and a plain message in between (both overtake the buffer, by design)
 	yield(&h.Case{Class: "agg-corpus", Ops: []string{"c05 gstart 3", "c05 gagg 2 1", "c05 gpar 2", "c05 gacc 3", "c05 gagg 0 4", "c05 gexit",
 		"c05 gexit", "c05 gagg 1 5", "c05 gagg 1 6", "c05 gexit", "c05 gagg 1 7", "c05 gagg 0 8", "c05 gexit", "c05 gexit"}})
-	for n := 0; n < c.Pick(30, 500); n++ {
+	for n := 0; n < c.Pick(18, 500); n++ {
 		k := 2 + r.Intn(3)
 		if r.Intn(6) == 0 {
 			k = 5 + r.Intn(5)
